@@ -365,6 +365,31 @@ theorem overlay_declared_type (cfs nfs : List (Str × Bool × Ty)) (hr : IdentRe
   rw [h2]
   simp [overlay, Val.asStr]
 
+/-- the version a decoded typed claim declares is the version that was encoded -/
+theorem overlay_declared_version (cfs nfs : List (Str × Bool × Ty)) (hr : IdentReady cfs nfs)
+    (vals nvals : List (Str × Val)) (n : Int) (hn0 : n ≠ 0)
+    (hwt : WT codecEnv (.struct cfs) (.struct vals))
+    (hn : getField vals "nats".toList = some (.struct nvals))
+    (htv : getField nvals "version".toList = some (.int n)) :
+    (((overlay codecEnv (.struct cfs) (zero (.struct cfs)) (.struct vals)).field "nats").field "version").asInt = n := by
+  obtain ⟨omn, hnats⟩ := hr.nats
+  simp only [WT] at hwt
+  have hwn : WT codecEnv (.struct nfs) (.struct nvals) :=
+    WTVals_mem codecEnv cfs vals _ _ omn _ hwt.2 (mem_of_getField _ _ _ hn) hnats
+  simp only [WT] at hwn
+  have hb1 := getField_zeroFields cfs hr.cnd _ _ _ (mem_of_fieldType cfs _ _ _ hnats)
+  have hb2 := getField_zeroFields nfs hr.nnd _ _ _ (mem_of_fieldType nfs _ _ _ hr.ver)
+  have h1 := overlay_struct_getField cfs (zeroFields cfs) vals hwt.1 "nats".toList omn (.struct nfs) _ (.struct nvals)
+    hnats hb1 hn (by simp [isEmptyValue])
+  have h2 := overlay_struct_getField nfs (zeroFields nfs) nvals hwn.1 "version".toList true (.int true 64) _ (.int n)
+    hr.ver hb2 htv (by simp [isEmptyValue, hn0])
+  rw [field_eq_field', field_eq_field']
+  simp only [zero] at h1 ⊢
+  rw [h1]
+  simp only [zero] at h2
+  rw [h2]
+  simp [overlay, Val.asInt]
+
 /-- **… and for the two authorization kinds** (whose loader also checks the declared kind: repair D13). -/
 theorem loadClaims_encoded_auth (k : Kind) (hk : k = .authRequest ∨ k = .authResponse)
     (vals nvals : List (Str × Val)) (j : Json)
@@ -387,15 +412,19 @@ theorem loadClaims_encoded_auth (k : Kind) (hk : k = .authRequest ∨ k = .authR
     have := overlay_declared_type _ _ hr vals nvals (kindTypeStr k) (kindTypeStr_ne_nil k) (by rw [← hs]; exact hwt) hn htv
     rw [← hs] at this
     simp [declaredOk, this]
+  have hvok : versionOk 2 (overlay codecEnv (schemaOf k) (zero (schemaOf k)) (.struct vals)) = true := by
+    have := overlay_declared_version _ _ hr vals nvals 2 (by decide) (by rw [← hs]; exact hwt) hn hvv
+    rw [← hs] at this
+    simp [versionOk, this]
   have hlib : ¬ ((2 : Int) > Gen.V2.clibVersion) := by decide
   have hlt : loadTyped k 2 j = .ok (overlay codecEnv (schemaOf k) (zero (schemaOf k)) (.struct vals)) := by
     rcases hk with rfl | rfl
-    · simp only [loadTyped, schemaOf] at hdj hdecl ⊢
+    · simp only [loadTyped, schemaOf] at hdj hdecl hvok ⊢
       simp only [hdj, bind, Except.bind, kindTypeStr] at hdecl ⊢
-      simp only [hdecl, if_true, pure, Except.pure]
-    · simp only [loadTyped, schemaOf] at hdj hdecl ⊢
+      simp only [hdecl, hvok, Bool.and_self, if_true, pure, Except.pure]
+    · simp only [loadTyped, schemaOf] at hdj hdecl hvok ⊢
       simp only [hdj, bind, Except.bind, kindTypeStr] at hdecl ⊢
-      simp only [hdecl, if_true, pure, Except.pure]
+      simp only [hdecl, hvok, Bool.and_self, if_true, pure, Except.pure]
   simp only [loadClaims, hid, bind, Except.bind, hver, hlib, if_false, hks, kindOfType_kindTypeStr k hkg, hlt, pure,
     Except.pure]
 
